@@ -1,3 +1,4 @@
 import BalmProofs.Props.C10
 #print axioms Balm.dnf_correct
 #print axioms Balm.faithful_of_covers
+#print axioms Balm.Impl.faithfulOnB_sound
